@@ -4,6 +4,7 @@ from sa.report import Check
 from sa.rules import backend as B
 from sa.rules import cpp_rules as C
 from sa.rules import pipeline as P
+from sa.rules import ranges as RG
 
 
 def main(tier):
@@ -19,7 +20,11 @@ def main(tier):
             "their guards, in particular `other.Ok() &&` in TryToCopyFrom (R-SIBLING); the accessor yields the null view "
             "when the location is unknown or negative (R-ACCESSOR); buffer copy is memmove behind Ok/size tests "
             "(R-COPY); no constant-amount bad shift, constant overflow or division by zero in any legal instantiation "
-            "(R-WIDTHS); the 64-bit gate covers every run-time expression position (R-GATE). "
+            "(R-WIDTHS); the 64-bit gate covers every run-time expression position and never declares an expression in range "
+            "before all of its checks ran (R-GATE); the range tests that select int32/uint32/int64/uint64 for generated "
+            "arithmetic, the gate's 64-bit fit predicates and the leaf ranges of UInt/Int/Bcd equal the language-level "
+            "ranges of those types for every width (R-INTRANGE), and the intermediate type covers result and operands "
+            "(R-INTERMEDIATE). "
             "Not decided: absence of out-of-bounds access for all buffers and dynamic offsets; alignment claims."))
     chk.run("R-NOABORT", C.noabort, cx.cpp, cx.templates, floor=12, control=lambda: cx.cpp_control)
     chk.run("R-SIBLING", C.sibling, cx.cpp, floor=80, control=lambda: cx.cpp_control)
@@ -27,4 +32,6 @@ def main(tier):
     chk.run("R-COPY", C.copy_rule, cx.cpp, cx.templates, floor=6)
     chk.run("R-WIDTHS", lambda: cx.widths, floor=3000)
     chk.run("R-GATE", P.gate, cx.repo, cx.schema, cx.sites, floor=4)
+    chk.run("R-INTRANGE", RG.intrange, cx.repo, floor=190)
+    chk.run("R-INTERMEDIATE", RG.intermediate, cx.repo, floor=2)
     return chk.finish()
